@@ -70,6 +70,9 @@ var c13OpKind = []string{"put", "put", "put", "get", "get", "get", "start", "sto
 func c13HasOp(variant string, op int) bool {
 	return variant == "userdata" || (op != c13Dump && op != c13Dump1)
 }
+
+// "userdata-core" (thorough tier) is the userdata variant over the core alphabet (no listing, Abort only inside an
+// explicit transaction), which can be taken one operation deeper than the full alphabet.
 var c13Keys = []string{"k1", "k2"}
 
 func c13OpByName(n string) (int, bool) {
@@ -142,10 +145,10 @@ func (m *c13Model) applicable(op int) bool {
 	switch op {
 	case c13Start:
 		return !m.inTx
-	case c13Stop, c13Abort:
+	case c13Stop:
 		return m.inTx
 	}
-	return true
+	return true // Abort without an explicit transaction is legal (and a no-op)
 }
 
 // apply advances the model by an operation whose outcome on the implementation was ok/not ok.
@@ -232,7 +235,8 @@ type c13Out struct {
 	classes   []string // non-trivial outcome class (at most one per run)
 	trace     []string
 	stats     map[string]bool
-	stoppedOK bool // a Stop has returned nil earlier in this run
+	stoppedOK bool // a Stop has ended an explicit transaction earlier in this run and the handle was used in the mode it leaves behind
+	leakedRB  bool // ... and the transaction that mode leaks was rolled back by a later fault or Abort
 }
 
 func (o *c13Out) add(cat, sig string, msg func() string) {
@@ -244,8 +248,14 @@ func (o *c13Out) add(cat, sig string, msg func() string) {
 	// witness predicate of the open finding "multi mode survives Stop": a Stop has ended (committed or
 	// tried to commit) an explicit transaction earlier in this run on this handle. Everything observed after that gets a
 	// signature of its own, so that the same kind of failure WITHOUT an earlier Stop is still reported.
+	// The handle leaves that mode again when the client calls Abort (or a new Start succeeds) before doing anything
+	// else: runs in which that happened carry no qualifier. And what the leaked transaction loses when a later fault or
+	// Abort rolls it back is told apart from everything else that can go wrong in that mode.
 	if o.stoppedOK && cat != "setup" {
 		sig += "-after-earlier-stop"
+		if o.leakedRB && cat == "res" {
+			sig += "-leaked-tx-rolled-back"
+		}
 	}
 	o.viol = append(o.viol, c13Viol{cat, sig, msg})
 }
@@ -328,6 +338,7 @@ func c13Exec(variant string, prog []int, faults []int, wantTrace bool) *c13Out {
 	m := newC13Model(variant)
 
 	pendingStopOK := false
+	linger, taint := false, false // see c13Out.stoppedOK
 	type step struct {
 		op        int
 		forced    bool
@@ -432,7 +443,20 @@ func c13Exec(variant string, prog []int, faults []int, wantTrace bool) *c13Out {
 			}
 		}
 		if pendingStopOK {
-			out.stoppedOK, pendingStopOK = true, false
+			linger, pendingStopOK = true, false
+		}
+		if linger {
+			switch op {
+			case c13Abort:
+				if taint {
+					out.leakedRB = true
+				} else {
+					linger = false // Abort clears the mode before anything ran in it
+				}
+			case c13Start:
+			default:
+				taint = true
+			}
 		}
 		firedBefore := len(plan.Fired)
 		logBefore := srv.LogLen()
@@ -483,7 +507,14 @@ func c13Exec(variant string, prog []int, faults []int, wantTrace bool) *c13Out {
 		}
 		if len(plan.Fired) > firedBefore {
 			st.fired = append(st.fired, plan.FiredKinds[firedBefore:]...)
+			if taint {
+				out.leakedRB = true
+			}
 		}
+		if linger && !taint && op == c13Start && st.res.pan == "" && st.res.err == nil {
+			linger = false // a new explicit transaction began
+		}
+		out.stoppedOK = linger || taint
 		if st.res.pan == "" {
 			ok := st.res.err == nil
 			if op == c13Close {
@@ -731,9 +762,10 @@ func c13Run(c *mc.Ctx) {
 	variants := []string{"userdata", "lang"}
 	depths := map[string]int{"userdata": 4, "lang": 4}
 	if c.Thorough() {
-		depths = map[string]int{"userdata": 6, "lang": 5}
+		variants = []string{"userdata", "userdata-core", "lang"}
+		depths = map[string]int{"userdata": 5, "userdata-core": 6, "lang": 5}
 	}
-	c.Note("max_program_length", fmt.Sprintf("userdata=%d lang=%d", depths["userdata"], depths["lang"]))
+	c.Note("max_program_length", fmt.Sprintf("userdata=%d userdata-core=%d lang=%d", depths["userdata"], depths["userdata-core"], depths["lang"]))
 	c.Note("max_faults_per_run", "2")
 	c.Note("variants", strings.Join(variants, ","))
 	c.Note("alphabet", strings.Join(c13OpNames[:c13NOps], " | "))
@@ -823,7 +855,7 @@ func c13Run(c *mc.Ctx) {
 				if mm.inTx && mm.txErr && op != c13Stop {
 					mm.apply(c13Abort, true)
 				}
-				if !mm.applicable(op) {
+				if !mm.applicable(op) || (variant != "userdata" && op == c13Abort && !mm.inTx) {
 					continue
 				}
 				mm.apply(op, mm.faultFreeOK(op))
@@ -849,7 +881,9 @@ func c13ProgVacuity(c *mc.Ctx, prog []int) {
 			c.Vacuity("program-with-start-stop", true)
 			in = false
 		case c13Abort:
-			c.Vacuity("program-with-start-abort", true)
+			if in {
+				c.Vacuity("program-with-start-abort", true)
+			}
 			in = false
 		case c13GetM:
 			if in && i < len(prog)-1 {
